@@ -221,7 +221,18 @@ end
 /-- **C03_pure**: serialization leaves the whole IR model as it was — same graph tree, same value
     cells (names, infos, constants, producers, uses, ownership), same counters, same tensor payloads —
     except that a tensor's own name may have been overwritten, and then only with the name of an
-    initializer value (of some graph of the model) whose `const_value` is that tensor. -/
+    initializer value (of some graph of the model) whose `const_value` is that tensor.
+    WHAT THIS THEOREM DOES AND DOES NOT SAY.  The model's serializer is a pure function of the stores that
+    returns the proto and a LOG of effects, and the only kind of effect the model has is the tensor-name
+    write of `serialize_graph_into` (`value.const_value.name = value.name`); `serialize` replays the log.
+    The first six conjuncts (tree, value cells, counters unchanged) therefore hold by construction of the
+    model — they restate that the model has no other effect and are not evidence about the real code.  The
+    content of the theorem is in the last two conjuncts: along every path of `serGraph` (nested graphs
+    included) the logged writes touch tensor names only, leave payload / dtype / shape alone, and every
+    write is justified by an initializer whose tensor it renames.  That the REAL `to_proto` performs no
+    other mutation (no renamed node, no changed value, no allocated object) rests entirely on the
+    deep-snapshot oracle of `harness/c03.py` (before / after comparison of every value, node, graph,
+    tensor and metadata field on every generated case). -/
 theorem C03_pure (w w1 : World) (p : GraphP) (h : serialize w = .ok (w1, p)) :
     w1.root = w.root ∧ w1.st.vals = w.st.vals ∧ w1.st.nv = w.st.nv ∧ w1.st.nt = w.st.nt ∧
     w1.st.nn = w.st.nn ∧ w1.st.ng = w.st.ng ∧
